@@ -327,6 +327,7 @@ fn required_facts(prop: Prop) -> Vec<&'static str> {
             "c04:retryable-kept",
             "c04:skip-checked:GasOverflow",
             "c04:skip-checked:MessageDoesNotExist",
+            "c04:skip-checked:FeeOverflow",
             "c04:skip-checked:TransactionIdCollision",
             "c04:skip-checked:TransactionValidity.CoinDoesNotExist",
             "c04:skip-checked:TransactionValidity.CoinMismatch",
